@@ -420,7 +420,10 @@ public:
                   Scalar tol = 1e-10, SortRule sorting = SortRule::LargestMagn)
     {
         // The m-step Arnoldi factorization
-        m_fac.factorize_from(1, m_ncv, m_nmatop);
+        // Right after init() the factorization has one step. If compute() is called again
+        // without init(), the existing m-step factorization is continued: restarting from
+        // step 1 would combine the first basis vector with the residual of step m
+        m_fac.factorize_from((std::max)(Index(1), m_fac.subspace_dim()), m_ncv, m_nmatop);
         retrieve_ritzpair(selection);
         // Restarting
         Index i, nconv = 0, nev_adj;
